@@ -73,6 +73,53 @@ pub fn norm(e: &impl ToTokens) -> String {
     e.to_token_stream().to_string()
 }
 
+/// token string with the parameters of the closures in it renamed positionally (`| x | x . f ()` and
+/// `| r | r . f ()` compare equal): the table's patterns and the source are both normalised before they are compared
+pub fn alpha(s: &str) -> String {
+    if !s.contains('|') {
+        return s.to_string();
+    }
+    let toks: Vec<&str> = s.split(' ').collect();
+    let mut params: Vec<&str> = vec![];
+    let mut i = 0;
+    while i < toks.len() {
+        if toks[i] == "|" {
+            // a parameter list: identifiers, `_`, `&`, `mut`, `,` up to the next `|`
+            let mut j = i + 1;
+            let mut ids = vec![];
+            let mut ok = true;
+            while j < toks.len() && toks[j] != "|" {
+                let t = toks[j];
+                if t == "," || t == "&" || t == "mut" || t == "_" || t == "(" || t == ")" {
+                } else if t.chars().all(|c| c.is_alphanumeric() || c == '_') && !t.chars().next().map(|c| c.is_ascii_digit()).unwrap_or(true) {
+                    ids.push(t);
+                } else {
+                    ok = false;
+                    break;
+                }
+                j += 1;
+            }
+            if ok && j < toks.len() {
+                for id in ids {
+                    if !params.contains(&id) {
+                        params.push(id);
+                    }
+                }
+                i = j + 1;
+                continue;
+            }
+        }
+        i += 1;
+    }
+    if params.is_empty() {
+        return s.to_string();
+    }
+    toks.iter().map(|t| match params.iter().position(|p| p == t) {
+        Some(k) => format!("_c{}", k),
+        None => t.to_string(),
+    }).collect::<Vec<_>>().join(" ")
+}
+
 pub struct Ctx<'a> {
     pub spec: &'a Spec,
     pub sigs: &'a BTreeMap<String, Sig>, // key: "<group>::<rust fn name>"
@@ -92,18 +139,42 @@ pub struct Ctx<'a> {
     pat_guards: Vec<String>,
     /// names of the top-level `let mut`s of the translated statements, in order (`#i` in `locals`)
     mut_lets: Vec<String>,
+    /// the items of the file: private helpers are inlined from here
+    items: &'a [Item],
+    /// inlined helper calls in progress
+    frames: Vec<Frame>,
+    inlining: Vec<String>,
 }
 
 pub struct Out {
     pub def: String,
     pub sig: Sig,
+    pub aux: Vec<String>,
 }
 
-pub fn translate(spec: &Spec, f_sig: &Signature, body: &Block, sigs: &BTreeMap<String, Sig>) -> std::result::Result<Out, TErr> {
+/// What the translation of one kernel may look at besides the function itself
+pub struct Info<'a> {
+    /// the items of the file (private helper functions are inlined from here)
+    pub items: &'a [Item],
+    /// (actual name, table name) of private functions that were found through their call sites
+    pub fn_renames: &'a [(String, String)],
+    /// for a closure kernel: the enclosing function
+    pub outer: Option<&'a (Signature, Block)>,
+}
+
+/// one inlined call of a private helper: where its `return` / `?` / value goes
+struct Frame {
+    k: &'static dyn Fn(&mut Ctx, Tm) -> R,
+    caller_env: Vec<(String, Tm)>,
+    caller_ret: Ty,
+    name: String,
+}
+
+pub fn translate(spec: &Spec, f_sig: &Signature, body: &Block, sigs: &BTreeMap<String, Sig>, info: &Info) -> std::result::Result<Out, TErr> {
     // "locals" kernels always yield an option: None = the function returned before the locals existed
     let wrap = spec.locals.is_some();
     for monadic in [false, true] {
-        match translate_mode(spec, f_sig, body, sigs, monadic, wrap) {
+        match translate_mode(spec, f_sig, body, sigs, monadic, wrap, info) {
             Err(TErr::NeedMonad) => continue,
             r => return r,
         }
@@ -111,12 +182,85 @@ pub fn translate(spec: &Spec, f_sig: &Signature, body: &Block, sigs: &BTreeMap<S
     Err(TErr::Unsupported("internal: no translation mode applies".into()))
 }
 
-fn translate_mode(spec: &Spec, f_sig: &Signature, body: &Block, sigs: &BTreeMap<String, Sig>, monadic: bool, wrap: bool) -> std::result::Result<Out, TErr> {
+fn top_lets(stmts: &[Stmt]) -> Vec<Option<String>> {
+    stmts.iter().filter_map(|s| if let Stmt::Local(l) = s { Some(pat_ident(&l.pat)) } else { None }).collect()
+}
+fn param_names(sig: &Signature) -> Vec<Option<String>> {
+    sig.inputs.iter().filter_map(|a| match a {
+        FnArg::Typed(pt) => Some(pat_ident(&pt.pat)),
+        FnArg::Receiver(_) => None,
+    }).collect()
+}
+/// name bound by the `let` whose initialiser is the i-th closure (source order) of the body
+fn closure_let_name(body: &Block, i: usize) -> Option<String> {
+    let mut cls: Vec<((usize, usize), String)> = vec![];
+    for st in &body.stmts {
+        if let Stmt::Local(l) = st {
+            if let (Some(n), Some(init)) = (pat_ident(&l.pat), &l.init) {
+                if let Expr::Closure(c) = &*init.expr {
+                    let p = c.or1_token.span.start();
+                    cls.push(((p.line, p.column), n));
+                }
+            }
+        }
+    }
+    // position among ALL closures of the body
+    use syn::visit::Visit;
+    struct V(Vec<(usize, usize)>);
+    impl<'ast> Visit<'ast> for V {
+        fn visit_expr_closure(&mut self, c: &'ast ExprClosure) {
+            let p = c.or1_token.span.start();
+            self.0.push((p.line, p.column));
+            syn::visit::visit_expr_closure(self, c);
+        }
+    }
+    let mut v = V(vec![]);
+    v.visit_block(body);
+    v.0.sort();
+    let pos = v.0.get(i)?;
+    cls.into_iter().find(|(p, _)| p == pos).map(|(_, n)| n)
+}
+
+fn translate_mode(spec: &Spec, f_sig: &Signature, body: &Block, sigs: &BTreeMap<String, Sig>, monadic: bool, wrap: bool, info: &Info) -> std::result::Result<Out, TErr> {
     let ret = match &f_sig.output {
         ReturnType::Default => Ty::Unit,
         ReturnType::Type(_, t) => spec.ty_of(t),
     };
-    let mut c = Ctx { spec, sigs, monadic, env: vec![], names: BTreeMap::new(), ret: ret.clone(), wrap, assigns: 0, rename: vec![], state_keys: vec![], pat_guards: vec![], mut_lets: vec![] };
+    let mut c = Ctx { spec, sigs, monadic, env: vec![], names: BTreeMap::new(), ret: ret.clone(), wrap, assigns: 0, rename: vec![], state_keys: vec![], pat_guards: vec![], mut_lets: vec![],
+                      items: info.items, frames: vec![], inlining: vec![] };
+    // private functions found under another name
+    for (a, t) in info.fn_renames {
+        c.rename.push((a.clone(), t.clone()));
+    }
+    // names of the table that a refactoring may change: when the name does not occur where the table expects
+    // it, the thing at the recorded POSITION gets the table's name
+    {
+        let (lets, params) = match info.outer {
+            Some((osig, obody)) => (top_lets(&obody.stmts), param_names(osig)),
+            None => (top_lets(&body.stmts), param_names(f_sig)),
+        };
+        let fbody: &Block = info.outer.map(|o| &o.1).unwrap_or(body);
+        for (sel, tname) in &spec.positions {
+            let known = lets.iter().chain(params.iter()).any(|n| n.as_deref() == Some(*tname));
+            if known {
+                continue;
+            }
+            let actual: Option<String> = if let Some(i) = sel.strip_prefix("let#") {
+                i.parse::<usize>().ok().and_then(|i| lets.get(i).cloned().flatten())
+            } else if let Some(i) = sel.strip_prefix("param#") {
+                i.parse::<usize>().ok().and_then(|i| params.get(i).cloned().flatten())
+            } else if let Some(i) = sel.strip_prefix("closure#") {
+                i.parse::<usize>().ok().and_then(|i| closure_let_name(fbody, i))
+            } else {
+                None
+            };
+            if let Some(a) = actual {
+                if a != *tname && !c.rename.iter().any(|(x, _)| *x == a) {
+                    c.rename.push((a, tname.to_string()));
+                }
+            }
+        }
+    }
     let mut binders: Vec<String> = vec![];
     for tp in &spec.type_params {
         binders.push(format!("{{{} : Type}}", tp));
@@ -261,8 +405,10 @@ fn translate_mode(spec: &Spec, f_sig: &Signature, body: &Block, sigs: &BTreeMap<
     }
     for st in &spec.state {
         if !st.pat.starts_with('#') {
-            c.state_keys.push(st.pat.to_string());
-            c.env.push((st.pat.to_string(), Tm::atom(st.param, st.ty.clone())));
+            // a captured variable named by the table: its actual name (positions / renames)
+            let key = c.rename.iter().find(|(_, t)| *t == st.pat).map(|(a, _)| a.clone()).unwrap_or(st.pat.to_string());
+            c.state_keys.push(key.clone());
+            c.env.push((key, Tm::atom(st.param, st.ty.clone())));
         }
     }
     if spec.locals.is_some() || spec.until.is_some() {
@@ -273,7 +419,19 @@ fn translate_mode(spec: &Spec, f_sig: &Signature, body: &Block, sigs: &BTreeMap<
         }
     }
     if let Some(u) = spec.until {
-        match base_stmts.iter().position(|s| c.nk(s).starts_with(u)) {
+        let starts = |c: &Ctx, s: &Stmt| -> bool {
+            if c.nk(s).starts_with(u) {
+                return true;
+            }
+            // `let x = <the statement>..;` / `let _ = ..?;`
+            if let Stmt::Local(l) = s {
+                if let Some(init) = &l.init {
+                    return c.nk(&*init.expr).starts_with(u);
+                }
+            }
+            false
+        };
+        match base_stmts.iter().position(|s| starts(&c, s)) {
             Some(i) => base_stmts.truncate(i),
             None => return unsup(&format!("no top-level statement starting with `{}`", u), body.span()),
         }
@@ -287,7 +445,7 @@ fn translate_mode(spec: &Spec, f_sig: &Signature, body: &Block, sigs: &BTreeMap<
             let mut seen: Vec<String> = vec![];
             for (i, s) in base_stmts.iter().enumerate() {
                 if let Stmt::Local(l) = s {
-                    if let Some(n) = pat_ident(&l.pat) {
+                    if let Some(n) = pat_ident(&l.pat).map(|n| c.canon(&n)) {
                         if ls.iter().any(|x| *x == n) && !seen.contains(&n) {
                             seen.push(n);
                             if seen.len() == ls.len() {
@@ -328,7 +486,8 @@ fn translate_mode(spec: &Spec, f_sig: &Signature, body: &Block, sigs: &BTreeMap<
         if let Some(ls) = &c.spec.locals {
             let mut parts = vec![];
             for l in ls {
-                match c.lookup(l) {
+                let actual = c.rename.iter().find(|(_, cn)| cn == l).map(|(a, _)| a.clone()).unwrap_or(l.to_string());
+                match c.lookup(&actual) {
                     Some(t) => parts.push(t.s),
                     None => return Err(TErr::Unsupported(format!("local `{}` not in scope at the end", l))),
                 }
@@ -372,7 +531,7 @@ fn translate_mode(spec: &Spec, f_sig: &Signature, body: &Block, sigs: &BTreeMap<
         nparams,
         ret,
     };
-    Ok(Out { def, sig })
+    Ok(Out { def, sig, aux: vec![] })
 }
 
 /// a loop of a function body: header pattern, body, names of the top-level `let mut`s before it, the
@@ -483,7 +642,7 @@ fn pat_ident(p: &Pat) -> Option<String> {
 
 pub fn coq_ty(t: &Ty) -> Option<String> {
     Some(match t {
-        Ty::Int(_) | Ty::NonZero | Ty::Addr | Ty::ISize | Ty::Ptr | Ty::Slice | Ty::TPtr(_) => "N".into(),
+        Ty::Int(_) | Ty::NonZero | Ty::Addr | Ty::ISize | Ty::Ptr | Ty::Slice | Ty::TPtr(_) | Ty::IdxRef => "N".into(),
         Ty::Either(a, b) => format!("({} + {})%type", coq_ty(a)?, coq_ty(b)?),
         Ty::Bool => "bool".into(),
         Ty::Unit => "unit".into(),
@@ -528,9 +687,9 @@ impl<'a> Ctx<'a> {
     /// patterns (`extra`, `skip`, `rewrite`, ...) are compared with
     fn nk(&self, e: &impl ToTokens) -> String {
         if self.rename.is_empty() {
-            norm(e)
+            alpha(&norm(e))
         } else {
-            rename_tokens(e.to_token_stream(), &self.rename).to_string()
+            alpha(&rename_tokens(e.to_token_stream(), &self.rename).to_string())
         }
     }
     /// Step mode: `<ctor> (state values, locals)`; the locals must be in scope
@@ -582,17 +741,9 @@ impl<'a> Ctx<'a> {
             None => return unsup(&format!("assignment to `{}` (not a local / declared state)", key), sp),
         };
         self.assigns += 1;
-        if tm.atomic {
-            self.env[idx].1 = tm;
-            cont(self)
-        } else {
-            let cn = self.canon(key);
-            let base: String = cn.rsplit(|ch: char| !(ch.is_alphanumeric() || ch == '_')).find(|x| !x.is_empty()).unwrap_or("x").to_string();
-            let v = self.fresh(&format!("v_{}", base));
-            self.env[idx].1 = Tm::atom(v.clone(), tm.ty.clone());
-            let rest = cont(self)?;
-            Ok(format!("let {} := {} in\n{}", v, tm.s, rest))
-        }
+        // NORMAL FORM: as for `let`, the (pure) assigned term is substituted
+        self.env[idx].1 = tm;
+        cont(self)
     }
     /// runs `f` and restores the variable bindings afterwards (sibling branches start from the same state)
     fn branch<T>(&mut self, f: impl FnOnce(&mut Ctx<'a>) -> T) -> T {
@@ -607,6 +758,23 @@ impl<'a> Ctx<'a> {
 
     /// value of the function (tail expression or `return e`)
     fn finish(&mut self, tm: Tm) -> R {
+        if let Some(fr) = self.frames.pop() {
+            // the value / `return` / `?` of an inlined private helper goes to the rest of its caller
+            let callee_env = std::mem::replace(&mut self.env, fr.caller_env.clone());
+            let callee_ret = std::mem::replace(&mut self.ret, fr.caller_ret.clone());
+            let pos = self.inlining.iter().rposition(|n| *n == fr.name);
+            if let Some(i) = pos {
+                self.inlining.remove(i);
+            }
+            let r = (fr.k)(self, tm);
+            if let Some(i) = pos {
+                self.inlining.insert(i.min(self.inlining.len()), fr.name.clone());
+            }
+            self.env = callee_env;
+            self.ret = callee_ret;
+            self.frames.push(fr);
+            return r;
+        }
         if self.spec.step.is_some() {
             return self.step_return(tm);
         }
@@ -700,7 +868,7 @@ impl<'a> Ctx<'a> {
                     _ => return unsup("`let` without initialiser / with `else`", l.span()),
                 };
                 let ik = self.nk(&**init);
-                if self.spec.skip.iter().any(|p| *p == ik) {
+                if self.spec.skip.iter().any(|p| alpha(p) == ik) {
                     return self.stmts(rest, k);
                 }
                 if let Some(bound) = pat_ident(&l.pat) {
@@ -712,7 +880,7 @@ impl<'a> Ctx<'a> {
                         return self.stmts(rest, k);
                     }
                 }
-                if let Some((_, cn)) = self.spec.skip_as.iter().find(|(p, _)| *p == ik) {
+                if let Some((_, cn)) = self.spec.skip_as.iter().find(|(p, _)| alpha(p) == ik) {
                     if let Some(actual) = pat_ident(&l.pat) {
                         if actual != *cn {
                             self.rename.push((actual, cn.to_string()));
@@ -728,7 +896,7 @@ impl<'a> Ctx<'a> {
             Stmt::Expr(e, _) if is_verif_hook(e) => self.stmts(rest, k),
             Stmt::Expr(e, semi) => {
                 let ek = self.nk(e);
-                if self.spec.skip.iter().any(|p| *p == ek) {
+                if self.spec.skip.iter().any(|p| alpha(p) == ek) {
                     return self.stmts(rest, k);
                 }
                 if self.spec.skip_loops && matches!(e, Expr::ForLoop(_) | Expr::While(_) | Expr::Loop(_)) {
@@ -784,15 +952,11 @@ impl<'a> Ctx<'a> {
             Pat::Wild(_) => cont(self),
             Pat::Ident(pi) => {
                 let name = pi.ident.to_string();
-                if tm.atomic {
-                    self.env.push((name, tm));
-                    cont(self)
-                } else {
-                    let v = self.fresh(&format!("v_{}", name));
-                    self.env.push((name, Tm::atom(v.clone(), tm.ty.clone())));
-                    let rest = cont(self)?;
-                    Ok(format!("let {} := {} in\n{}", v, tm.s, rest))
-                }
+                // NORMAL FORM: a `let x = e` with a pure (non-panicking) e is substituted, so that a named
+                // sub-expression and the inline expression generate the same term.  Panicking operations
+                // have already been bound (`let* t := ..`) in evaluation order when e was translated.
+                self.env.push((name, tm));
+                cont(self)
             }
             Pat::Tuple(_) => {
                 let (ps, binds) = self.pattern(p, &tm.ty)?;
@@ -895,7 +1059,7 @@ impl<'a> Ctx<'a> {
     // ------------------------------------------------------------------ expressions
     pub fn expr(&mut self, e: &Expr, k: K) -> R {
         let key = self.nk(e);
-        if let Some((_, to)) = self.spec.rewrite.iter().find(|(p, _)| *p == key) {
+        if let Some((_, to)) = self.spec.rewrite.iter().find(|(p, _)| alpha(p) == key) {
             let ne: Expr = match syn::parse_str(to) {
                 Ok(x) => x,
                 Err(_) => return unsup("rewrite target does not parse", e.span()),
@@ -912,7 +1076,7 @@ impl<'a> Ctx<'a> {
             LINE_OVERRIDE.with(|l| l.set(None));
             return r;
         }
-        if let Some(x) = self.spec.extra.iter().find(|x| x.pat == key) {
+        if let Some(x) = self.spec.extra.iter().find(|x| alpha(x.pat) == key) {
             return k(self, Tm::atom(x.param, x.ty.clone()));
         }
         if self.state_keys.iter().any(|p| *p == key) && !matches!(e, Expr::Path(_)) {
@@ -920,7 +1084,7 @@ impl<'a> Ctx<'a> {
                 return k(self, t);
             }
         }
-        if let Some((_, v, ty)) = self.spec.consts.iter().find(|(p, _, _)| *p == key) {
+        if let Some((_, v, ty)) = self.spec.consts.iter().find(|(p, _, _)| alpha(p) == key) {
             return k(self, Tm::atom(v.clone(), ty.clone()));
         }
         match e {
@@ -1004,6 +1168,10 @@ impl<'a> Ctx<'a> {
             Expr::Match(m) => self.match_expr(m, k),
             Expr::Block(b) => self.block(&b.block, k),
             Expr::Unsafe(b) => self.block(&b.block, k),
+            Expr::Return(r) if !self.frames.is_empty() => match &r.expr {
+                Some(e) => self.expr(e, &|c, tm| c.finish(tm)),
+                None => self.finish(Tm::unit()),
+            },
             Expr::Return(r) if self.spec.break_value => unsup("`return` inside a loop used as an expression", r.span()),
             Expr::Return(r) => match &r.expr {
                 // a "locals" kernel only records THAT the function returned early, not what
@@ -1103,6 +1271,15 @@ impl<'a> Ctx<'a> {
                         });
                     }
                 }
+                // `&v[i]` (bound to a local and used as the receiver of opaque calls): the element seen as its index
+                if !matches!(strip_paren(&ix.index), Expr::Range(_)) {
+                    return self.expr(&ix.index, &|c, i| {
+                        if !is_int(&i.ty) {
+                            return unsup("index that is not an integer", ix.span());
+                        }
+                        k(c, Tm { ty: Ty::IdxRef, ..i })
+                    });
+                }
                 unsup("indexing (declare the access as an opaque call)", e.span())
             }
             Expr::Macro(m) if m.mac.path.is_ident("unreachable") => {
@@ -1147,6 +1324,126 @@ impl<'a> Ctx<'a> {
         } else {
             unsup(&format!("assignment to `{}`", key), e.span())
         }
+    }
+
+    /// a function of the same file by name: free function (`method` = false: also an associated function
+    /// `Self::f`) or method; when several types have one of that name, the one of the kernel's own type
+    fn find_helper(&self, name: &str) -> Option<(Signature, Block)> {
+        fn own_ty(l: &crate::specs::Loc) -> Option<&'static str> {
+            use crate::specs::Loc;
+            match l {
+                Loc::Impl { ty, .. } => Some(ty),
+                Loc::Trait(t, _) => Some(t),
+                Loc::Closure { outer, .. } => own_ty(outer),
+                Loc::InMacro { inner, .. } => own_ty(inner),
+                _ => None,
+            }
+        }
+        fn ty_name(t: &Type) -> String {
+            match t {
+                Type::Path(p) => p.path.segments.last().map(|s| s.ident.to_string()).unwrap_or_default(),
+                Type::Reference(r) => ty_name(&r.elem),
+                Type::Paren(p) => ty_name(&p.elem),
+                Type::Slice(_) => "[T]".into(),
+                _ => String::new(),
+            }
+        }
+        fn walk(items: &[Item], name: &str, out: &mut Vec<(String, Signature, Block)>) {
+            for it in items {
+                match it {
+                    Item::Mod(m) => {
+                        let test = m.attrs.iter().any(|a| a.path().is_ident("cfg") && a.to_token_stream().to_string().contains("test"));
+                        if let (false, Some((_, l))) = (test, &m.content) {
+                            walk(l, name, out);
+                        }
+                    }
+                    Item::Fn(f) if f.sig.ident == name => out.push((String::new(), f.sig.clone(), (*f.block).clone())),
+                    Item::Impl(i) => {
+                        for ii in &i.items {
+                            if let ImplItem::Fn(m) = ii {
+                                if m.sig.ident == name {
+                                    out.push((ty_name(&i.self_ty), m.sig.clone(), m.block.clone()));
+                                }
+                            }
+                        }
+                    }
+                    Item::Trait(t) => {
+                        for ti in &t.items {
+                            if let TraitItem::Fn(f) = ti {
+                                if let (true, Some(b)) = (f.sig.ident == name, &f.default) {
+                                    out.push((t.ident.to_string(), f.sig.clone(), b.clone()));
+                                }
+                            }
+                        }
+                    }
+                    _ => {}
+                }
+            }
+        }
+        let mut c = vec![];
+        walk(self.items, name, &mut c);
+        if c.len() > 1 {
+            if let Some(t) = own_ty(&self.spec.loc) {
+                c.retain(|(ty, _, _)| ty == t);
+            }
+        }
+        if c.len() == 1 {
+            let (_, s, b) = c.pop().unwrap();
+            Some((s, b))
+        } else {
+            None
+        }
+    }
+
+    /// NORMAL FORM: a call of a private helper of the same file that the table does not know is replaced by
+    /// the helper's body (parameters := the argument terms), so that extracting a function does not change
+    /// the generated term.  `return` / `?` / the value of the helper continue with `k`.
+    fn inline_call(&mut self, name: &str, sig: &Signature, body: &Block, args: Vec<Tm>, sp: proc_macro2::Span, k: K) -> R {
+        if self.inlining.iter().any(|n| n == name) || self.inlining.len() >= 6 {
+            return unsup(&format!("call of `{}` (recursive / too deeply nested private helper)", name), sp);
+        }
+        let mut env: Vec<(String, Tm)> = self.env.iter().filter(|(n, _)| n == "self" || n.starts_with("self .") || n == "* self").cloned().collect();
+        let mut i = 0;
+        for a in &sig.inputs {
+            if let FnArg::Typed(pt) = a {
+                let pn = match pat_ident(&pt.pat) {
+                    Some(n) => n,
+                    None => return unsup(&format!("parameter pattern of the private helper `{}`", name), sp),
+                };
+                let mut tm = match args.get(i) {
+                    Some(t) => t.clone(),
+                    None => return unsup(&format!("call of `{}` with too few arguments", name), sp),
+                };
+                let pty = self.spec.ty_of(&pt.ty);
+                if pty != Ty::Unknown && tm.ty != pty && !(matches!(tm.ty, Ty::Int(_)) && matches!(pty, Ty::Int(_))) {
+                    tm.ty = pty;
+                } else if matches!(pty, Ty::Int(_)) {
+                    tm.ty = pty;
+                }
+                env.push((pn, tm));
+                i += 1;
+            }
+        }
+        if i != args.len() {
+            return unsup(&format!("call of `{}` with {} arguments, it takes {}", name, args.len(), i), sp);
+        }
+        let callee_ret = match &sig.output {
+            ReturnType::Default => Ty::Unit,
+            ReturnType::Type(_, t) => self.spec.ty_of(t),
+        };
+        // the continuation is only called while this function is active
+        let ks: &'static dyn Fn(&mut Ctx, Tm) -> R = unsafe { std::mem::transmute(k) };
+        let fr = Frame { k: ks, caller_env: std::mem::replace(&mut self.env, env), caller_ret: std::mem::replace(&mut self.ret, callee_ret), name: name.to_string() };
+        self.frames.push(fr);
+        self.inlining.push(name.to_string());
+        let r = self.block(body, &|c, tm| c.finish(tm));
+        if let Some(i) = self.inlining.iter().rposition(|n| n == name) {
+            self.inlining.remove(i);
+        }
+        let fr = self.frames.pop().expect("inline frame");
+        self.env = fr.caller_env;
+        self.ret = fr.caller_ret;
+        r
     }
 
     fn exprs(&mut self, es: &[&Expr], k: &dyn Fn(&mut Ctx, Vec<Tm>) -> R) -> R {
@@ -1544,7 +1841,7 @@ impl<'a> Ctx<'a> {
             Expr::Path(p) => &p.path,
             _ => return unsup("call of a non-path", call.span()),
         };
-        let last = path.segments.last().unwrap().ident.to_string();
+        let last = self.canon(&path.segments.last().unwrap().ident.to_string());
         let args: Vec<&Expr> = call.args.iter().collect();
         let line = line_of(call.span());
         if self.is_err_path(&Expr::Call(call.clone())) {
@@ -1642,7 +1939,26 @@ impl<'a> Ctx<'a> {
             }
             return self.exprs(&args, &|c, t| c.call_kernel(&sig, t, line, k));
         }
+        // a private helper of the same file that the table does not know: its body
+        let plain = path.segments.len() == 1 || (path.segments.len() == 2 && path.segments[0].ident == "Self");
+        if plain {
+            if let Some((hsig, hbody)) = self.find_helper(&last) {
+                if hsig.receiver().is_none() {
+                    return self.exprs(&args, &|c, t| c.inline_call(&last, &hsig, &hbody, t, call.span(), k));
+                }
+            }
+        }
         unsup(&format!("call of `{}`", norm(&call.func)), call.span())
+    }
+
+    /// a local bound to `&v[i]`
+    fn is_idx_ref(&self, e: &Expr) -> bool {
+        if let Expr::Path(p) = strip_paren(e) {
+            if let Some(id) = p.path.get_ident() {
+                return matches!(self.lookup(&id.to_string()), Some(Tm { ty: Ty::IdxRef, .. }));
+            }
+        }
+        false
     }
 
     fn select_args<'e>(&self, name: &str, args: &[&'e Expr]) -> Vec<&'e Expr> {
@@ -1660,7 +1976,7 @@ impl<'a> Ctx<'a> {
             for t in &tms {
                 match &t.ty {
                     ty if is_int(ty) => parts.push(t.s.clone()),
-                    Ty::Ptr | Ty::Slice => parts.push(t.s.clone()),
+                    Ty::Ptr | Ty::Slice | Ty::IdxRef => parts.push(t.s.clone()),
                     Ty::TPtr(w) => {
                         parts.push(t.s.clone());
                         parts.push(format!("{}", w));
@@ -1753,7 +2069,7 @@ impl<'a> Ctx<'a> {
     }
 
     fn method(&mut self, mc: &ExprMethodCall, k: K) -> R {
-        let name = mc.method.to_string();
+        let name = self.canon(&mc.method.to_string());
         let line = line_of(mc.method.span());
         let args: Vec<&Expr> = mc.args.iter().collect();
         // self.iter().map(F).fold(INIT, G)  ->  (INIT, fun <extras of F> => F .., G)
@@ -1797,7 +2113,7 @@ impl<'a> Ctx<'a> {
             let mut all: Vec<&Expr> = vec![];
             if let Expr::Index(ix) = &*mc.receiver {
                 all.push(&ix.index);
-            } else if self.spec.recv_arg.iter().any(|m| *m == name) {
+            } else if self.spec.recv_arg.iter().any(|m| *m == name) || self.is_idx_ref(&mc.receiver) {
                 all.push(&*mc.receiver);
             }
             for a in self.select_args(&name, &args) {
@@ -1812,7 +2128,7 @@ impl<'a> Ctx<'a> {
             let mut all: Vec<&Expr> = vec![];
             if let Expr::Index(ix) = &*mc.receiver {
                 all.push(&ix.index);
-            } else if self.spec.recv_arg.iter().any(|m| *m == name) {
+            } else if self.spec.recv_arg.iter().any(|m| *m == name) || self.is_idx_ref(&mc.receiver) {
                 all.push(&*mc.receiver);
             }
             for a in self.select_args(&name, &args) {
@@ -1844,6 +2160,12 @@ impl<'a> Ctx<'a> {
             let key = format!("{}::{}", self.spec.group, name);
             if let Some(sig) = self.sigs.get(&key).cloned() {
                 return self.exprs(&args, &|c, t| c.call_kernel(&sig, t, line, k));
+            }
+            // a private method of the same type that the table does not know: its body
+            if let Some((hsig, hbody)) = self.find_helper(&name) {
+                if hsig.receiver().is_some() {
+                    return self.exprs(&args, &|c, t| c.inline_call(&name, &hsig, &hbody, t, mc.span(), k));
+                }
             }
             if !self.spec.extra.iter().any(|x| x.pat == "self") && self.lookup("self").is_none() {
                 return unsup(&format!("method `self.{}` (not a kernel of this group, not declared opaque)", name), mc.span());
@@ -1928,6 +2250,18 @@ impl<'a> Ctx<'a> {
                 }),
                 // isize -> usize: fails for negative values
                 (Ty::ISize, "try_into") if args.is_empty() => k(c, Tm::app(format!("isize_try_from {}", recv.s), Ty::Opt(Box::new(Ty::Int(64))))),
+                // `<*mut u8>::cast::<T>()` is `self as *mut T`
+                (Ty::Ptr, "cast") if args.is_empty() => {
+                    let w = mc.turbofish.as_ref().and_then(|t| t.args.first()).map(|a| norm(a)).unwrap_or_default();
+                    let to = match w.as_str() {
+                        "u64" | "usize" => Ty::TPtr(8),
+                        "u32" => Ty::TPtr(4),
+                        "u16" => Ty::TPtr(2),
+                        "u8" => Ty::TPtr(1),
+                        _ => Ty::Ptr,
+                    };
+                    k(c, Tm { ty: to, ..recv.clone() })
+                }
                 (Ty::Ptr, "add") if args.len() == 1 && c.spec.ptr_checked => c.expr(args[0], &|c, a| {
                     if !is_w64(&a.ty) {
                         return unsup("pointer add of a non-usize", mc.span());
